@@ -15,7 +15,7 @@ from vlib.prop import Check, Native, sx_str
 from vlib.view import view, L
 from mirsym import Program, Interp, models, Lazy, Opaque, syn_models, harness_models  # noqa: F401
 from props import recv_spec as S
-from props.recv_common import Oracle, E, flat_errors, match_errors, value_eqs, OPTS
+from props.recv_common import Oracle, E, flat_errors, match_errors, value_eqs, OPTS, replay_panic
 from props.C08 import merged_items, SPECS
 from props.C12 import rep
 
@@ -310,6 +310,25 @@ def src_attrs(l, at, ex=None):
     return "".join(out)
 
 
+def d4_source(l, ex):
+    dk = l.decisions.get("x*.data#d")
+    if dk == 0:
+        fs = src_fields(l, "x*.data.Struct.0.fields", ex)
+        src = "pub struct Foo<T> where T: Copy%s%s" % (" " if fs.startswith(" {") else "", fs.strip() + (";" if not fs.startswith(" {") else ""))
+        src = "pub struct Foo<T>%s" % ((fs + " where T: Copy;") if not fs.startswith(" {") else (" where T: Copy" + fs))
+    elif dk == 1:
+        n = l.decisions.get("x*.data.Enum.0.variants#len", 0)
+        vs = []
+        for i in range(n):
+            vb = "x*.data.Enum.0.variants[%d]" % i
+            dsc = " = %d" % (i + 3) if l.decisions.get(vb + ".discriminant#d") == 1 else ""
+            vs.append("%sV%d%s%s" % (src_attrs(l, vb + ".attrs", ex), i, src_fields(l, vb + ".fields", ex), dsc))
+        src = "pub enum Foo<T> { %s }" % ", ".join(vs)
+    else:
+        src = "union Foo { a: u8 }"
+    return src
+
+
 def d4_job(ck, prog, natbin, NF, M, quick, only=None, NV=None, MV=None):
     native = Native(natbin)
     I = Interp(prog, models.all_models(OPTS), Pol(NF, M, only, NV, MV), timeout_ms=ck.timeout_ms)
@@ -319,6 +338,9 @@ def d4_job(ck, prog, natbin, NF, M, quick, only=None, NV=None, MV=None):
     ck.check_exhaustive(I, leaves, "D4")
     cnt = 0
     for l in leaves:
+        if l.status == "panicked":
+            replay_panic(ck, native, "D4", l, "(di D4 %s)" % sx_str(d4_source(l, Exp(ck, l))), {"crate": "hderive"})
+            continue
         if l.status != "returned":
             ck.obligations += 1
             ck.engine("D4: leaf %s %s" % (l.status, l.info or l.panics))
@@ -367,21 +389,7 @@ def d4_job(ck, prog, natbin, NF, M, quick, only=None, NV=None, MV=None):
                 good, why = False, "accepted although %r" % (val,)
             else:
                 good, why = match_errors(val, flat_errors(got["0"], l), l, check_spans=False)
-        # source text witness
-        if dk == 0:
-            fs = src_fields(l, "x*.data.Struct.0.fields", ex)
-            src = "pub struct Foo<T> where T: Copy%s%s" % (" " if fs.startswith(" {") else "", fs.strip() + (";" if not fs.startswith(" {") else ""))
-            src = "pub struct Foo<T>%s" % ((fs + " where T: Copy;") if not fs.startswith(" {") else (" where T: Copy" + fs))
-        elif dk == 1:
-            n = l.decisions.get("x*.data.Enum.0.variants#len", 0)
-            vs = []
-            for i in range(n):
-                vb = "x*.data.Enum.0.variants[%d]" % i
-                dsc = " = %d" % (i + 3) if l.decisions.get(vb + ".discriminant#d") == 1 else ""
-                vs.append("%sV%d%s%s" % (src_attrs(l, vb + ".attrs", ex), i, src_fields(l, vb + ".fields", ex), dsc))
-            src = "pub enum Foo<T> { %s }" % ", ".join(vs)
-        else:
-            src = "union Foo { a: u8 }"
+        src = d4_source(l, ex)
         req = "(di D4 %s)" % sx_str(src)
         cnt += 1
         if ex.ignored:
